@@ -2,6 +2,6 @@ SPECIFICATION StSpec
 CONSTANTS MaxIn = 0 MaxOut = 0 MaxFeed = 1 MaxGrant = 1
  Family = "lzma1" Rederive = TRUE
  Inputs <- MCInputs
-INVARIANTS DocumentedOnly NoInternal StarveBounded BufErrorResumable
+INVARIANTS DocumentedOnly NoInternal StarveBounded StallBounded BufErrorResumable
 PROPERTY StarveLive
 CHECK_DEADLOCK FALSE
